@@ -730,7 +730,9 @@ class MemorizedFunc(Logger):
             old_func_code, old_first_line = extract_first_line(
                 self.store_backend.get_cached_func_code([self.func_id])
             )
-        except (IOError, OSError):  # some backend can also raise OSError
+        except (IOError, OSError, UnicodeDecodeError):
+            # some backend can also raise OSError; a function code file whose
+            # writing was interrupted may not even decode (it is rewritten)
             self._write_func_code(func_code, first_line)
             return False
         if old_func_code == func_code:
